@@ -38,8 +38,10 @@ CONSTANTS MaxLen, Fuel,
                       \*   "else-keeps-loop"   (before 5d411ff) a bad <else dropped the <if> and left loop_tag alone
                       \*   "loopend-any-kind"  (before fee8705) </loop> reinterpreted whatever record was on top as a loop
 
-VARIABLES conts, ps, cur, child, ltag, nid, bad, phase, n
-vars == <<conts, ps, cur, child, ltag, nid, bad, phase, n>>
+VARIABLES conts, ps, cur, child, ltag, nid, bad, phase, n,
+          hist     \* the tokens dispatched so far (history only: hidden by VIEW; one path per distinct scanner state is exported, E2)
+vars == <<conts, ps, cur, child, ltag, nid, bad, phase, n, hist>>
+View == <<conts, ps, cur, child, ltag, nid, bad, phase, n>>
 
 Rec(id, k, closed, subs, parent, level, lt) == [id |-> id, k |-> k, closed |-> closed, subs |-> subs, parent |-> parent, level |-> level, lt |-> lt]
 Top(s) == s[Len(s)]
@@ -65,7 +67,7 @@ LiveRecs == UNION {Range(conts[c]) : c \in LiveConts}
 RecOf(id) == CHOOSE r \in LiveRecs : r.id = id
 IsLiveLoop(id) == \E r \in LiveRecs : r.id = id /\ r.k = "loop"
 
-Init == /\ conts = << <<>> >> /\ ps = <<>> /\ cur = 1 /\ child = FALSE /\ ltag = 0 /\ nid = 1 /\ bad = "" /\ phase = "scan" /\ n = 0
+Init == /\ conts = << <<>> >> /\ ps = <<>> /\ cur = 1 /\ child = FALSE /\ ltag = 0 /\ nid = 1 /\ bad = "" /\ phase = "scan" /\ n = 0 /\ hist = <<>>
 
 Same(v) == UNCHANGED v
 Insert(r) == [conts EXCEPT ![cur] = Append(@, r)]
@@ -146,7 +148,7 @@ RECURSIVE Unwind(_, _)
 Unwind(cs, stack) == IF stack = <<>> THEN cs ELSE Unwind(IF cs[Top(stack)] = <<>> THEN cs ELSE DropLast(cs, Top(stack)), Pop(stack))
 \* end of the text: unfinished tags are dropped
 End == /\ phase = "scan" /\ phase' = "end" /\ conts' = Unwind(conts, ps) /\ ps' = <<>> /\ cur' = IF ps = <<>> THEN cur ELSE ps[1]
-       /\ Same(<<child, ltag, nid, bad, n>>)
+       /\ Same(<<child, ltag, nid, bad, n, hist>>)
 
 Token(t) == CASE t = "CLOSE" -> Close [] t = "VAR" -> Leaf("var") [] t = "RAW" -> Leaf("var") [] t = "MATH" -> Leaf("math")
               [] t = "SVAR" -> Open("svar") [] t = "IIF" -> Open("iif") [] t = "LOOP" -> Open("loop") [] t = "LOOPEND" -> LoopEnd
@@ -154,10 +156,12 @@ Token(t) == CASE t = "CLOSE" -> Close [] t = "VAR" -> Leaf("var") [] t = "RAW" -
 Tokens == {"CLOSE", "VAR", "MATH", "SVAR", "IIF", "LOOP", "LOOPEND", "IF", "IFEND", "ELSE"}     \* RAW behaves as VAR
 
 Step == /\ phase = "scan" /\ n < MaxLen /\ bad = "" /\ n' = n + 1 /\ Same(phase)
-        /\ \/ Close \/ Leaf("var") \/ Leaf("math") \/ Open("svar") \/ Open("iif") \/ Open("loop") \/ LoopEnd \/ Open("if") \/ IfEnd \/ Else
+        /\ \E t \in Tokens : Token(t) /\ hist' = Append(hist, t)
 Next == Step \/ End
 Spec == Init /\ [][Next]_vars
 
+\* E2 / E3: one token path per distinct scanner state (the first one TLC found), printed for the conformance harness
+ExportPath == PrintT(<<"PATH", hist>>)
 \* ------------------------------ invariants ---------------------------------------
 NoBad == bad = ""
 PsLive == phase = "scan" => (cur \in LiveConts /\ \A i \in 1..Len(ps) : ps[i] \in LiveConts)
